@@ -232,7 +232,9 @@ func evPerturb() {
 		sched.Seed(12345)
 		sched.Set(&sched.Perturb{Prob: map[string]float64{
 			"tumbling.": 0.04, "sliding.": 0.04, "session.": 0.04, "proc.chan_read": 0.01,
-		}, MaxSleep: 200 * time.Microsecond})
+			// the lock is released around the delivery of a late update: hold the ingest goroutine there often
+			"tumbling.late.unlocked": 0.5, "sliding.late.unlocked": 0.5, "session.late.unlocked": 0.5,
+		}, MaxSleep: 400 * time.Microsecond})
 	})
 }
 
